@@ -653,6 +653,86 @@ def m3(cx):
                detail=f"the container may be shared with another handle ({m.loc(alias[0])}: `{short(alias[0], 60)}`): editing it in place re-addresses the other handle too; rebind a fresh container instead", sub="inplace")
 
 
+# ------------------------------------------------------------------------------------------ M4
+STRUCT_CACHES = {"_buffer", "_offset", "_size", "_offsets", "_shape", "_strides", "_dshape"}
+DERIVING = {"_from_buffer", "_array_from_buffer", "__get__", "__getitem__", "to_nplike", "to_nparray", "_get_size", "get_offset", "_get_offset", "to_bytearray", "get"}
+
+
+@rule("M4", ["C06", "C10"], "xobject handles keep (buffer, offset, structure caches) only: no view or value read from the buffer is memoised on a handle")
+def m4(cx):
+    """A handle is equivalent to a view rebuilt from (buffer, offset) because everything else it holds is a structure
+    cache that every rewrite site re-derives (rules R10.refresh, M1, M3).  A child view or a value memoised on the
+    parent handle is not known to those sites: after `_update` / a field assignment moved or resized a nested part
+    the handle keeps addressing the old place while a rebuilt view reads the new one (seeded C06-b)."""
+    m = cx.m
+    sites = 0
+    for modname in ("struct", "array", "string", "ref"):
+        for fn in m.all_functions(modname):
+            q = m.qualname(fn)
+            params = [a.arg for a in fn.args.args]
+            handles = {p_ for p_ in params if p_ in ("self", "instance")}
+            if "." not in q.split("::")[1]:
+                continue
+            owner = q.split("::")[1].split(".")[0]
+            if owner.startswith("Meta") or owner in ("Ref", "NumpyScalar", "Info"):
+                continue  # type objects, not handles
+            if owner == "Field":
+                handles &= {"instance"}
+            if not handles:
+                continue
+            d = Defs(fn)
+
+            def derived(v):
+                return v is not None and any(isinstance(n, ast.Call) and call_name(n) in DERIVING for n in ast.walk(v))
+
+            aliases = {}  # local name -> description of the handle state it aliases
+            for st in own_nodes(fn):
+                if isinstance(st, ast.Assign) and len(st.targets) == 1 and isinstance(st.targets[0], ast.Name):
+                    v = st.value
+                    txt = norm(v)
+                    for h in handles:
+                        if txt == f"{h}.__dict__" or txt.startswith(f"{h}.__dict__.setdefault(") or txt.startswith(f"{h}.__dict__[") or txt.startswith(f"vars({h})") or (txt.startswith(f"getattr({h}, ") and isinstance(v, ast.Call) and len(v.args) == 3):
+                            aliases[st.targets[0].id] = txt
+                        if isinstance(v, ast.Attribute) and norm(v.value) == h and v.attr not in STRUCT_CACHES and v.attr.startswith("_") and not v.attr.startswith("__"):
+                            aliases[st.targets[0].id] = txt
+            for st in own_nodes(fn):
+                tgt = val = None
+                what = None
+                if isinstance(st, ast.Assign):
+                    val = st.value
+                    for t in st.targets:
+                        ts = t.elts if isinstance(t, (ast.Tuple, ast.List)) else [t]
+                        for e in ts:
+                            if isinstance(e, ast.Attribute) and norm(e.value) in handles:
+                                sites += 1
+                                if e.attr not in STRUCT_CACHES and derived(val):
+                                    what = f"{norm(e)} = {short(val, 70)}"
+                            elif isinstance(e, ast.Subscript):
+                                base = norm(e.value)
+                                if any(base == f"{h}.__dict__" for h in handles):
+                                    sites += 1
+                                    k = e.slice.value if isinstance(e.slice, ast.Constant) else None
+                                    if k not in STRUCT_CACHES and derived(val):
+                                        what = f"{norm(e)} = {short(val, 70)}"
+                                elif isinstance(e.value, ast.Name) and e.value.id in aliases and derived(val):
+                                    sites += 1
+                                    what = f"{norm(e)} = {short(val, 70)}   [{e.value.id} is {aliases[e.value.id]}]"
+                elif isinstance(st, ast.Expr) and isinstance(st.value, ast.Call):
+                    c = st.value
+                    if call_name(c) == "setattr" and len(c.args) == 3 and norm(c.args[0]) in handles:
+                        sites += 1
+                        k = c.args[1].value if isinstance(c.args[1], ast.Constant) else None
+                        if k not in STRUCT_CACHES and derived(c.args[2]):
+                            what = short(c, 100)
+                    elif isinstance(c.func, ast.Attribute) and c.func.attr in ("append", "update", "setdefault", "insert", "add") and isinstance(c.func.value, ast.Name) and c.func.value.id in aliases and any(derived(a) for a in c.args):
+                        sites += 1
+                        what = short(c, 100) + f"   [{c.func.value.id} is {aliases[c.func.value.id]}]"
+                if what:
+                    cx.bad(st, construct=f"{q.split('::')[1]}: {what}", detail="a view / value read from the buffer is kept on the handle: no rewrite site (Struct._update, Array._update, field assignment) refreshes it, so after the nested part moves or changes size the handle reads the old place while a view rebuilt from (buffer, offset) reads the new one")
+    cx.need(sites >= 15, f"only {sites} handle-state stores found in struct/array/string/ref (the census no longer matches the code)")
+    cx.ok(m.func("struct::Field.__get__"), construct=f"{sites} stores into handle state examined: structure caches {sorted(STRUCT_CACHES)} only", detail="no memoised view or value on any xobject handle")
+
+
 # ------------------------------------------------------------------------------------------ M2
 def _rank(e, d, depth=0):
     """abstract rank of an array expression: 'nd' | 1 | None(unknown)"""
